@@ -516,7 +516,10 @@ class WARCRecorder(object):
         Returns:
             str, None: A string in the form ``type/subtype`` or None.
         '''
-        match = re.match(r'([a-zA-Z0-9!#$&^_.+-]+/[a-zA-Z0-9!#$&^_.+-]+)', value)
+        # Type and subtype are tokens (RFC 7230 section 3.2.6).
+        match = re.match(
+            r'''([a-zA-Z0-9!#$%&'*+.^_`|~-]+/[a-zA-Z0-9!#$%&'*+.^_`|~-]+)''',
+            value)
 
         if match:
             return match.group(1)
